@@ -38,9 +38,9 @@ MIXINGS = [0.0, 0.25, 0.5, 0.75, 1.0]
 
 def _datas(tier, seed):
     out = [("L3x3b", X) for X in fam.lattice(3, 3, [0, 1])]
-    step = 27 if tier == "quick" else 3
+    step = 27 if tier == "quick" else 6
     out += [("L3x3t", X) for i, X in enumerate(fam.lattice(3, 3, [0, 1, 2])) if i % step == 1]
-    step = 16 if tier == "quick" else 2
+    step = 16 if tier == "quick" else 4
     out += [("L3x4", X) for i, X in enumerate(fam.lattice(3, 4, [0, 1])) if i % step == 1]
     out += [("L4x3", X) for i, X in enumerate(fam.lattice(4, 3, [0, 1])) if i % step == 1]
     for shp in [(4, 4), (5, 3), (3, 5), (6, 4), (4, 6), (8, 6)]:
